@@ -243,6 +243,13 @@ CURATED = [
     "A(i,j) = (B(i,j) + C(i,j)) * D(i,j) + E(i,j)",
     "a(i) = b(i) * c(i) + d(i) * e(i)",
     "a(i) = b(i) + 0.5 + 0.5",
+    # sums of contractions: parenthesised groups on both sides, contraction bodies that are sums
+    "a() = (b(i) + c(j)) + (d(k) + e(i))",
+    "a() = (s() + b(i)) + (t() + c(j))",
+    "a(i) = (u(i) + M(j,i)) + (v(i) + N(k,i))",
+    "a(i) = b(i) - C(i,k) - D(i,k)",
+    "a(i) = b(i) + C(i,k) * e(k) + D(i,k)",
+    "a(i) = b(i) + (C(i,k) + 1) * d(k)",
     # product-of-sums class (K1b; judged in two steps)
     "a() = (b(i) + 2) * (c(i) + 3)",
     "a(i) = b(i) * (C(i,j) + d(i))",
@@ -372,6 +379,24 @@ def random_formats(rng, orders: dict, sparse_bias=0.55):
             rng.shuffle(ordering)
         out[name] = taco.fmt_text(modes, tuple(ordering))
     return out
+
+
+def format_plan(rng, orders: dict, n: int, target=None):
+    """n format assignments for one shape: always the all-compressed and the all-dense assignment
+    (the merge lattice is largest when every operand is sparse), one with a compressed output over
+    dense inputs, then seeded random ones.  With `target`, random ones get a compressed target level."""
+    plans = [{k: "s" * o for k, o in orders.items()}, {k: "d" * o for k, o in orders.items()}]
+    if target is not None:
+        plans.append({k: ("s" * o if k == target else "d" * o) for k, o in orders.items()})
+    while len(plans) < n:
+        f = random_formats(rng, orders)
+        if target is not None and orders[target] > 0:
+            for _ in range(20):
+                if "s" in f[target]:
+                    break
+                f = random_formats(rng, orders)
+        plans.append(f)
+    return plans[:max(n, 2)]
 
 
 def unify_index_sizes(rng, target, e, sizes_pool=SIZES_WEIGHTED):
